@@ -142,7 +142,7 @@ def _validate(ctx, recs, name, stage):
     def grp_run(mx):
         grp = [r for r in recs if r["h"]["max"] == mx]
         return vlib.validate_events("Trace_BlockStore", [_slim(r) for r in grp], cfg=f"Trace_BlockStore_{mx}.cfg",
-                                    native=False, chunk=40 if mx < 1000 else 2, jobs=8, tag=f"bs{mx}")
+                                    native=False, chunk=(40 if len(grp) < 2000 else 150) if mx < 1000 else 2, jobs=8, tag=f"bs{mx}")
 
     with ThreadPoolExecutor(max_workers=3) as ex:
         for v, stats in ex.map(grp_run, sorted({r["h"]["max"] for r in recs}, reverse=True)):
@@ -172,17 +172,21 @@ def _validate(ctx, recs, name, stage):
 def _stage_a(ctx):
     consts = "MAX=24 OVERHEAD=8 Sizes={0,4,8,15,16} FlushGrain=4 crash on; 6 initial directories (0,1,1,2,11,12 files)"
     from concurrent.futures import ThreadPoolExecutor
-    cfg = "MC_BlockStore_q.cfg" if ctx.tier == "quick" else "MC_BlockStore_t.cfg"
-    with ThreadPoolExecutor(max_workers=4) as ex:       # the four TLC runs are independent
+    mains = [("MC_BlockStore_q.cfg", consts + "; 2 calls x <=2 blocks")]
+    if ctx.tier == "thorough":
+        small = "MAX=24 OVERHEAD=8 Sizes={0,4,8,15,16} crash on; 4 small initial directories"
+        mains += [("MC_BlockStore_t.cfg", small + "; FlushGrain=4; 2 calls x <=3 blocks"),
+                  ("MC_BlockStore_t3.cfg", small + "; FlushGrain=8; 3 calls x <=2 blocks")]
+    with ThreadPoolExecutor(max_workers=6) as ex:       # the TLC runs are independent
         f_cov = ex.submit(vlib.tlc_ok, "MC_BlockStore", "MC_BlockStore_cov.cfg", workers=2, coverage=True, timeout=900)
-        f_main = ex.submit(vlib.tlc_ok, "MC_BlockStore", cfg, workers=12, timeout=3400)
+        f_main = [(c, k, ex.submit(vlib.tlc_ok, "MC_BlockStore", c, workers=12 if ctx.tier == "quick" else 5, timeout=3400)) for c, k in mains]
         f_dev = {dev: ex.submit(vlib.tlc, "MC_BlockStore", f"MC_BlockStore_{dev}.cfg", workers=2, timeout=600)
                  for dev in ("raise", "drop")}
         r = f_cov.result()
         ctx.stage_a("MC_BlockStore_cov.cfg", r, constants="1 call x <=2 blocks, 4 small directories (coverage run)",
                     coverage_required=("BeginAny", "Open", "Write", "RollClose", "RollOpen", "Close", "FlushAny", "CrashAny"))
-        r = f_main.result()
-        ctx.stage_a(cfg, r, constants=consts + ("; 2 calls x <=2 blocks" if ctx.tier == "quick" else "; 3 calls x <=3 blocks"))
+        for c, k, f in f_main:
+            ctx.stage_a(c, f.result(), constants=k)
         devres = {dev: f.result() for dev, f in f_dev.items()}
     for dev in ("raise", "drop"):
         r = devres[dev]
@@ -330,7 +334,7 @@ def _boundary_histories():
 
 def _stage_c(ctx):
     rnd = random.Random(ctx.seed * 1000003 + 19)
-    n, nbig = (300, 14) if ctx.tier == "quick" else (20000, 250)
+    n, nbig = (300, 14) if ctx.tier == "quick" else (6000, 120)
     hists = _boundary_histories()
     hists += [_rand_history(rnd, 24 if rnd.random() < 0.7 else 64, ctx.tier == "thorough") for _ in range(n)]
     hists += [_big_history(rnd) for _ in range(nbig)]
